@@ -46,4 +46,5 @@ def main(tier):
     chk.run("R-NEGLOC", V.negloc, cx.repo, cx.schema, cx.sites, floor=2)
     chk.run("R-ATTRBACKEND", V.attrbackend, cx.repo, floor=6)
     chk.run("R-BITSFIXED", V.bitsfixed, cx.repo, floor=2)
+    chk.run("R-DOCWORDS", V.docwords, cx.repo, floor=500)
     return chk.finish()
